@@ -4,8 +4,16 @@ C13 — Stable hashes are deterministic, history-free and discriminating.
 Model: `QbiceVerif.Model.Hash` (`stream` = the bytes a value's `StableHash` impl feeds to the hasher; the
 hasher is abstract: state `σ`, `absorb`, `finish`).  All theorems hold for every hasher, every type of the
 universe, every well-typed value, any nesting depth and any collection size.
+
+HEADLINE of the "discriminating" half: `stream_decodes_located`, `stream_discriminates_located`,
+`fingerprint_discriminates_located` (section "Discrimination with LOCATED collisions" below).  Their collision
+disjuncts are statements about the two values at hand (`Val.Located v t w st`, `Lemmas/HashLocated.lean`; the two
+top-level streams), falsifiable and falsified on concrete pairs below.  The older `stream_discriminates`,
+`fingerprint_discriminates`, `fingerprint_discriminates_all` are kept but SUPERSEDED: their collision disjunct
+is a closed proposition about the hasher that is always true (`NonVacuity/C13.lean : someCollision_always`).
 -/
-import QbiceVerif.Lemmas.HashNested
+import QbiceVerif.Lemmas.HashLocatedDec
+import QbiceVerif.Lemmas.HashLocatedSub
 
 namespace QbiceVerif.Hash
 
@@ -145,7 +153,9 @@ theorem umap_discriminates (k v : Ty) (vs ws : ValList) (st : σ)
 
 end
 
-/-- "equal fingerprints mean equal values up to a 128-bit collision" for the final seeded SipHash-128 value on
+/-- SUPERSEDED by `fingerprint_discriminates_located_ordered` / `fingerprint_discriminates_located`: the collision
+    disjunct is closed and always true (pigeonhole), see `NonVacuity/C13.lean`.
+    "equal fingerprints mean equal values up to a 128-bit collision" for the final seeded SipHash-128 value on
     the ordered fragment: equal hashes ⇒ equal values, or two different byte strings collide under the hasher. -/
 theorem fingerprint_discriminates (seed : Nat) (t : Ty) (v w : Val)
     (ho : t.ordered = true) (hwf : t.wf = true) (hv : hasType t v = true) (hw : hasType t w = true)
@@ -161,7 +171,10 @@ theorem fingerprint_discriminates (seed : Nat) (t : Ty) (v w : Val)
 section
 variable {σ : Type} (absorb : σ → Bytes → σ) (finish : σ → Nat)
 
-/-- "Values that differ feed different, unambiguous byte streams to the hasher, so equal fingerprints mean
+/-- SUPERSEDED by `stream_decodes_located` / `stream_discriminates_located`: the collision disjunct
+    `SomeCollision absorb finish` is closed and always true, see `NonVacuity/C13.lean : someCollision_always`
+    (only `r1 = r2` has content here).
+    "Values that differ feed different, unambiguous byte streams to the hasher, so equal fingerprints mean
     equal values up to a 128-bit collision" — for EVERY type of the universe, hash-ordered collections nested
     at any depth: if two well-typed values write streams (from one hasher state, followed by anything) that
     agree, then the rests agree (framing is never ambiguous), and the values are the same up to NaN payloads
@@ -175,7 +188,9 @@ theorem stream_discriminates (t : Ty) (v w : Val) (st : σ) (r1 r2 : Bytes)
 
 end
 
-/-- The same for the final seeded SipHash-128 fingerprint: equal `hash128` ⇒ same value up to entry order and
+/-- SUPERSEDED by `fingerprint_discriminates_located`: both collision disjuncts are closed and always true, see
+    `NonVacuity/C13.lean`.
+    The same for the final seeded SipHash-128 fingerprint: equal `hash128` ⇒ same value up to entry order and
     NaN payloads, or a sum collision inside, or two different byte strings with one SipHash-128 value. -/
 theorem fingerprint_discriminates_all (seed : Nat) (t : Ty) (v w : Val)
     (hwf : t.wf = true) (hv : hasType t v = true) (hw : hasType t w = true)
@@ -189,6 +204,97 @@ theorem fingerprint_discriminates_all (seed : Nat) (t : Ty) (v w : Val)
     · exact Or.inl h1
     · exact Or.inr (Or.inl h2)
   · exact Or.inr (Or.inr ⟨_, _, hs, h⟩)
+
+/-! ## Discrimination with LOCATED collisions (headline)
+
+"Different values" means `¬ Val.SameUpTo v t w`: not the same datum up to NaN payloads and up to the iteration
+order of hash-ordered collections at any depth (two orders of one `HashSet` are one value).
+
+The only events the scheme of `stable_hash` can suffer from, on the data of `v` and `w` themselves:
+
+* `Val.Located absorb finish v t w st` (`Lemmas/HashLocated.lean`): a hash-ordered collection `c₁` inside `v` and
+  the hash-ordered collection `c₂` at the SAME PATH of `w` (through options / results / wrappers / tuple fields /
+  enum variants / sequence indices, all preceding siblings having written equal bytes; inside an enclosing
+  hash-ordered collection through two entries with equal entry streams), both reached in one hasher state `st'`,
+  with `c₁.length = c₂.length`, DIFFERENT multisets of entry streams, and EQUAL
+  `Σ sub_hash(entry stream) mod 2^128` — `SumCollision st' (entryStreams c₁) (entryStreams c₂)`.  For length 1
+  this is two distinct entry streams with one 128-bit sub-hash; for length k a solution of the k-sum problem.
+* for the final fingerprint, additionally: the two top-level streams of `v` and `w` are different byte strings
+  with one finalised 128-bit value.
+
+That these are improbable for SipHash-128 is the cryptographic assumption; nothing else is assumed. -/
+
+section
+variable {σ : Type} (absorb : σ → Bytes → σ) (finish : σ → Nat)
+
+/-- decoding form, EVERY type of the universe, hash-ordered collections nested at any depth: two well-typed
+    values whose streams (from one hasher state, followed by anything) agree have equal rests (framing is never
+    ambiguous) and are the same value up to entry order and NaN payloads — unless a sum collision is LOCATED at
+    corresponding hash-ordered collections inside `v` and `w`. -/
+theorem stream_decodes_located (t : Ty) (v w : Val) (st : σ) (r1 r2 : Bytes)
+    (hwf : t.wf = true) (hv : hasType t v = true) (hw : hasType t w = true)
+    (h : stream absorb finish t v st ++ r1 = stream absorb finish t w st ++ r2) :
+    (Val.SameUpTo v t w ∨ Val.Located absorb finish v t w st) ∧ r1 = r2 :=
+  loc_dec absorb finish v t w st r1 r2 hwf hv hw h
+
+/-- "Values that differ feed different byte streams to the hasher": for two different well-typed values of one
+    type of the universe, either their write streams differ, or a sum collision is located inside them. -/
+theorem stream_discriminates_located (t : Ty) (v w : Val) (st : σ)
+    (hwf : t.wf = true) (hv : hasType t v = true) (hw : hasType t w = true)
+    (hne : ¬ Val.SameUpTo v t w) :
+    stream absorb finish t v st ≠ stream absorb finish t w st ∨ Val.Located absorb finish v t w st := by
+  by_cases hs : stream absorb finish t v st = stream absorb finish t w st
+  · have := (stream_decodes_located absorb finish t v w st [] [] hwf hv hw
+      (by rw [List.append_nil, List.append_nil]; exact hs)).1
+    exact Or.inr (this.resolve_left hne)
+  · exact Or.inl hs
+
+/-- the same with the event flattened (weaker, easier to read; `Lemmas/HashLocatedSub.lean`): … or there are a
+    hash-ordered collection `c₁` occurring inside `v` and a hash-ordered collection `c₂` occurring inside `w`, of
+    one entry type `t'` and one length, and a hasher state `st'`, whose entry streams are different multisets with
+    equal sub-hash sums mod 2^128 (`CollisionInside`). -/
+theorem stream_discriminates_collision_inside (t : Ty) (v w : Val) (st : σ)
+    (hwf : t.wf = true) (hv : hasType t v = true) (hw : hasType t w = true)
+    (hne : ¬ Val.SameUpTo v t w) :
+    stream absorb finish t v st ≠ stream absorb finish t w st ∨
+    ∃ (t' : Ty) (c₁ c₂ : ValList) (st' : σ),
+      Val.Sub (.list c₁) v ∧ Val.Sub (.list c₂) w ∧ c₁.length = c₂.length ∧
+      SumCollision absorb finish st' (entryStreams absorb finish t' c₁ st') (entryStreams absorb finish t' c₂ st') :=
+  (stream_discriminates_located absorb finish t v w st hwf hv hw hne).imp_right
+    (located_inside absorb finish v t w st)
+
+end
+
+/-- "equal fingerprints mean equal values up to a 128-bit collision", every type of the universe: two different
+    well-typed values have different seeded SipHash-128 fingerprints, or THEIR OWN two streams are different
+    byte strings with one finalised 128-bit value, or a sum collision is located inside them. -/
+theorem fingerprint_discriminates_located (seed : Nat) (t : Ty) (v w : Val)
+    (hwf : t.wf = true) (hv : hasType t v = true) (hw : hasType t w = true)
+    (hne : ¬ Val.SameUpTo v t w) :
+    hash128 seed t v ≠ hash128 seed t w ∨
+    (topStream seed t v ≠ topStream seed t w ∧
+      ((seeded seed).absorb (topStream seed t v)).finish = ((seeded seed).absorb (topStream seed t w)).finish) ∨
+    Val.Located SipStream.absorb SipStream.finish v t w (seeded seed) := by
+  by_cases hh : hash128 seed t v = hash128 seed t w
+  · rcases stream_discriminates_located SipStream.absorb SipStream.finish t v w (seeded seed) hwf hv hw hne
+      with hs | hl
+    · exact Or.inr (Or.inl ⟨hs, hh⟩)
+    · exact Or.inr (Or.inr hl)
+  · exact Or.inl hh
+
+/-- the ordered fragment (no hash-ordered collection inside): equal fingerprints ⇒ equal values (up to NaN
+    payloads), or THE TWO STREAMS of `v` and `w` are different byte strings with one SipHash-128 value. -/
+theorem fingerprint_discriminates_located_ordered (seed : Nat) (t : Ty) (v w : Val)
+    (ho : t.ordered = true) (hwf : t.wf = true) (hv : hasType t v = true) (hw : hasType t w = true)
+    (h : hash128 seed t v = hash128 seed t w) :
+    v.canon = w.canon ∨
+    (topStream seed t v ≠ topStream seed t w ∧
+      ((seeded seed).absorb (topStream seed t v)).finish = ((seeded seed).absorb (topStream seed t w)).finish) := by
+  by_cases hs : topStream seed t v = topStream seed t w
+  · left
+    exact (stream_inj SipStream.absorb SipStream.finish t v w _ _ ho hwf hv hw).mp hs
+  · right
+    exact ⟨hs, h⟩
 
 /-! ## Non-vacuity -/
 
@@ -229,5 +335,72 @@ example : ¬ Val.SameUpTo s12 (.seq (.int false .w8)) s21 := by
 -- … and it can be false: sets of different sizes never have equal streams
 example : stream ab fin (.uset (.int false .w8)) s12 []
     ≠ stream ab fin (.uset (.int false .w8)) (.list (.cons (.int 1) .nil)) [] := by decide
+
+/-! ### The located statements are falsifiable in both directions
+
+`BinaryHeap<BinaryHeap<u8>>` (`uset (uset u8)`): `nA = {{1,2},{1,3}}`, `nB = {{1,3},{1,3}}` — different values. -/
+private def u8 : Ty := .int false .w8
+private def tUU : Ty := .uset (.uset u8)
+private def s13 : Val := .list (.cons (.int 1) (.cons (.int 3) .nil))
+private def nA : Val := .list (.cons s12 (.cons s13 .nil))
+private def nB : Val := .list (.cons s13 (.cons s13 .nil))
+/-- a toy hasher that is injective on short inputs: the bytes absorbed so far read as a big-endian number -/
+private def finN : Bytes → Nat := fun bs => bs.foldl (fun a b => a * 256 + b.toNat) 0
+
+example : tUU.wf = true ∧ hasType tUU nA = true ∧ hasType tUU nB = true := by decide
+
+/-- `nA` and `nB` are different values (`{1,2}` is an entry of `nA` only) -/
+private theorem nA_ne_nB : ¬ Val.SameUpTo nA tUU nB := by
+  intro h
+  obtain ⟨w, hw, hs⟩ := sameUpTo_uset_mem h s12 (by simp [ValList.toList])
+  have hw' : w = s13 := by simpa [ValList.toList] using hw
+  subst hw'
+  obtain ⟨x, hx, hsx⟩ := sameUpTo_uset_mem hs (.int 2) (by simp [ValList.toList])
+  simp only [ValList.toList, List.mem_cons, List.not_mem_nil, or_false] at hx
+  rcases hx with rfl | rfl <;> simp [Val.SameUpTo, Val.canon] at hsx
+
+/-- (1) the located disjunct is FALSE for this pair under the injective toy hasher (unfolded, then `decide`):
+    neither the outer collections nor any pair of entries with equal entry streams is a sum collision … -/
+private theorem nA_nB_not_located : ¬ Val.Located ab finN nA tUU nB [] := by
+  simp only [Val.Located, ValList.LocatedEntry, exists_mem_toList_cons, exists_mem_toList_nil, exists_false,
+    and_false, or_false, true_and, nA, nB, s12, s13, tUU, u8]
+  decide
+
+/-- … so `stream_discriminates_located` yields real discrimination: the streams differ (derived from the
+    theorem, not computed). -/
+example : stream ab finN tUU nA [] ≠ stream ab finN tUU nB [] :=
+  (stream_discriminates_located ab finN tUU nA nB [] (by decide) (by decide) (by decide) nA_ne_nB).resolve_right
+    nA_nB_not_located
+
+/-- (2) the located disjunct is TRUE for the same pair under the weak toy hasher `fin` (number of bytes
+    absorbed): the inner collections `{1,2}` / `{1,3}` are a real sum collision (different entry multisets, equal
+    sums), they write the same 24 bytes, are matched as entries of the outer collections, and the streams of the
+    two different values coincide — the disjunct cannot be dropped. -/
+example : Val.Located ab fin nA tUU nB [] := by
+  simp only [Val.Located, ValList.LocatedEntry, exists_mem_toList_cons, exists_mem_toList_nil, exists_false,
+    and_false, or_false, true_and, nA, nB, s12, s13, tUU, u8]
+  decide
+example : stream ab fin tUU nA [] = stream ab fin tUU nB [] := by decide
+/-- the event itself, spelled out: in the state reached at the inner collections, the entry multisets
+    `{[1],[2]}` and `{[1],[3]}` differ and have equal sub-hash sums -/
+example : SumCollision ab fin (le 8 2 ++ le 8 2) [[1], [2]] [[1], [3]] := by decide
+/-- under the injective toy hasher the same two entry multisets are NOT a collision -/
+example : ¬ SumCollision ab finN (le 8 2 ++ le 8 2) [[1], [2]] [[1], [3]] := by decide
+
+/-- (3) the real seeded SipHash-128: for this pair the located event is false, so
+    `fingerprint_discriminates_located` leaves "fingerprints differ, or these two 48-byte streams collide under
+    SipHash-128" — and the fingerprints do differ. -/
+private theorem nA_nB_not_located_sip : ¬ Val.Located SipStream.absorb SipStream.finish nA tUU nB (seeded 7) := by
+  simp only [Val.Located, ValList.LocatedEntry, exists_mem_toList_cons, exists_mem_toList_nil, exists_false,
+    and_false, or_false, true_and, nA, nB, s12, s13, tUU, u8]
+  decide +kernel
+example : hash128 7 tUU nA ≠ hash128 7 tUU nB ∨
+    (topStream 7 tUU nA ≠ topStream 7 tUU nB ∧
+      ((seeded 7).absorb (topStream 7 tUU nA)).finish = ((seeded 7).absorb (topStream 7 tUU nB)).finish) := by
+  rcases fingerprint_discriminates_located 7 tUU nA nB (by decide) (by decide) (by decide) nA_ne_nB with h | h | h
+  · exact Or.inl h
+  · exact Or.inr h
+  · exact absurd h nA_nB_not_located_sip
+example : hash128 7 tUU nA ≠ hash128 7 tUU nB := by decide +kernel
 
 end QbiceVerif.Hash
